@@ -66,7 +66,7 @@ def run_tree(rec, tier, seed, ti, spec, t):
     it, br = t.interp, t.bridge
     for name, decl, path in spec.classes():
         vg = ValueGen(it, rng, "nd")
-        for j in range(VALUES[tier]):
+        for j in range(VALUES[tier] * (4 if ti < 0 else 1)):  # the hand-written tree gets four times the values
             obj = vg.message(name)
             if ref_valid(it, obj) is not True:
                 rec.count("discard:original-not-valid")
